@@ -167,8 +167,9 @@ struct runner {
 			if (mem_excuse) O().count("stores_under_memory_pressure");
 		}
 		if (!stored) {
-			if (!mem_excuse) { viol("cache:store-lost", hex(o.key)); return; }
-			O().count("stores_dropped_for_memory");
+			// a value whose deadline has already passed can never be served: not keeping it is indistinguishable for clients
+			if (!mem_excuse && o.dl >= now) { viol("cache:store-lost", hex(o.key)); return; }
+			O().count(o.dl < now && !mem_excuse ? "expired_stores_not_kept" : "stores_dropped_for_memory");
 		}
 		if (!stored) need = std::min(need, removed.size());   // a dropped store need not have made room
 		if (removed.size() != need) {
